@@ -1956,7 +1956,16 @@ class Exec:
                     raise ToolLimit('re.subn with non-literal pattern')
                 subj = A[2]
                 if isinstance(subj, VStr):
-                    raise ToolLimit('re.subn on str')
+                    if subj.z is None and not isinstance(subj.s, str):
+                        raise ToolLimit('re.subn on an unknown str')
+                    flags = kws.get('flags')
+                    fl = flags.name if isinstance(flags, VBuiltin) else ('' if flags is None else '?')
+                    if fl == '?':
+                        raise ToolLimit('re.subn with computed flags')
+                    fns = z3.Function('RE_SUBN_STR[%s -> %s | %s]' % (pat.decode('latin-1'), rep.decode('latin-1'), fl), BYTES, BYTES)
+                    t = fns(self.strseq(subj))
+                    st.ghost.setdefault('regex', []).append((pat, rep, self.strseq(subj), t))
+                    return [(st, VTuple([VStr(z=t, cp=subj.cp), VInt(fresh('nsub'))]) if name == 're.subn' else VStr(z=t, cp=subj.cp))]
                 fn = z3.Function('RE_SUBN[%s -> %s]' % (pat.hex(), rep.hex()), BYTES, BYTES)
                 t = fn(self.seq(subj, st))
                 st.ghost.setdefault('regex', []).append((pat, rep, self.seq(subj, st), t))
@@ -2062,6 +2071,56 @@ class Exec:
                 # str(x) of a str (or of an instance of a str subclass without its own __str__): the same text as a plain str
                 if A[0].cls is None or self.repo.lookup(A[0].cls, '__str__') is None:
                     return [(st, VStr(s=A[0].s, z=A[0].z, prefix=A[0].prefix, cp=A[0].cp))]
+            if name == 'sorted':
+                items = self.iter_items(A[0], st)
+                if kws.get('reverse') is not None:
+                    raise ToolLimit('sorted(reverse=...)')
+                keyf = kws.get('key')
+                if len(items) <= 1:
+                    return [(st, self.new_list(st, items))]
+                # keys (through the key function when given), then a stable insertion sort that forks on each comparison
+                outs = [(st, [])]
+                for it in items:
+                    nxt = []
+                    for s1, acc in outs:
+                        for s2, kv in (self.call(keyf, [it], {}, s1, ctx, n, env) if keyf is not None else [(s1, it)]):
+                            if isinstance(kv, Raise):
+                                return [(s2, kv)]
+                            nxt.append((s2, acc + [(kv, it)]))
+                    outs = nxt
+
+                def less(a, b, s0):
+                    if isinstance(a, VTuple) and isinstance(b, VTuple) and len(a.items) == len(b.items):
+                        c = z3.BoolVal(False)
+                        for x, y in reversed(list(zip(a.items, b.items))):
+                            c = z3.Or(less(x, y, s0), z3.And(self.eq(x, y, s0), c))
+                        return c
+                    if isinstance(a, VStr) and isinstance(b, VStr) and isinstance(a.s, str) and isinstance(b.s, str):
+                        return z3.BoolVal(a.s < b.s)
+                    if isinstance(a, (VInt, VBool)) and isinstance(b, (VInt, VBool)):
+                        return self.as_int(a) < self.as_int(b)
+                    raise ToolLimit('sorted() over values without a modelled order')
+                res = []
+                for s1, keyed in outs:
+                    states = [(s1, [])]
+                    for kv, it in keyed:
+                        nstates = []
+                        for s2, acc in states:
+                            # insert after the last element that is not greater (stable)
+                            def place(s3, pos, acc=acc, kv=kv, it=it):
+                                if pos == 0:
+                                    return [(s3, [(kv, it)] + acc)]
+                                out_ = []
+                                for s4, t in self.fork(s3, less(kv, acc[pos - 1][0], s3)):
+                                    if t:
+                                        out_ += place(s4, pos - 1)
+                                    else:
+                                        out_.append((s4, acc[:pos] + [(kv, it)] + acc[pos:]))
+                                return out_
+                            nstates += place(s2, len(acc))
+                        states = nstates
+                    res += [(s2, self.new_list(s2, [it for _, it in acc])) for s2, acc in states]
+                return res
             if name in ('filter', 'map'):
                 # lazily evaluated in Python; here: applied at once (the callables used are side-effect free predicates / projections)
                 f, its = A[0], self.iter_items(A[1], st)
